@@ -704,6 +704,11 @@ def check_codecs(ctx, wire):
                 ctx.disagree('parse_lp_packet_v2', 'different fields', case, mv, impl)
         if isinstance(impl, tuple) and not impl[2]:
             ctx.violation('parse_lp_packet_v2', 'undocumented-exception:' + impl[1], f'raises {impl[1]}', case)
+        # oracle: a fragmented envelope is refused, with or without the outer Type/Length
+        if not isinstance(impl, tuple) and ctx.call([3, LP, wire]) == [11]:
+            els = top_elements(wire)
+            cls = 'header-out-of-order' if els is not None and not in_declared_order(els, ORDER) else 'fragmented-accepted'
+            ctx.violation('parse_lp_packet_v2', cls, 'the envelope carries FragIndex/FragCount and is accepted', case)
         ctx.case((13, with_tl, w), len(w) > 6, None, f'E.parse_lp_packet_v2.tl{int(with_tl)}')
 
 
